@@ -201,32 +201,59 @@ let stats_check line =
       (List.nth ["?"; "panicked"; "time-figures-not-the-order-statistics"; "non-finite-field"; "counter-presence";
                  "means"; "provenance-column-not-from-one-sample"] why)
 
-(* ---- real runs: the harness prints "IN <recorded samples as a stats case> OUT <stats line>" ---- *)
-let split_in_out (i : string) : (string * string) option =
-  let key = " OUT " in
-  let lk = String.length key and li = String.length i in
-  if li < 3 || String.sub i 0 3 <> "IN " then None
-  else begin
-    let pos = ref (-1) in
-    (try
-       for k = 3 to li - lk do
-         if !pos < 0 && String.sub i k lk = key then begin pos := k; raise Exit end
-       done
-     with Exit -> ());
-    if !pos < 0 then None
-    else Some (String.sub i 3 (!pos - 3), String.sub i (!pos + lk) (li - !pos - lk))
-  end
+(* ---- real runs: the harness prints
+        "IN <recorded samples as a stats case> EXP <e0>|<e1>|<e2>|<e3> OUT <stats line>"
+   e_k = "*" (kind k has no input counter), "-" (no samples) or the samples joined by ";", a sample = comma list
+   of the counts of its inputs, "v^k" = k inputs of count v ---- *)
+let find_sub (s : string) (key : string) (from : int) : int option =
+  let lk = String.length key and ls = String.length s in
+  let rec go k = if k + lk > ls then None else if String.sub s k lk = key then Some k else go (k + 1) in
+  go from
+
+let split_in_out (i : string) : (string * string * string) option =
+  if String.length i < 3 || String.sub i 0 3 <> "IN " then None
+  else
+    match find_sub i " EXP " 3 with
+    | None -> None
+    | Some pe ->
+      (match find_sub i " OUT " pe with
+       | None -> None
+       | Some po ->
+         Some (String.sub i 3 (pe - 3), String.sub i (pe + 5) (po - pe - 5),
+               String.sub i (po + 5) (String.length i - po - 5)))
+
+(* sum of the input counts of one sample *)
+let sample_sum (s : string) : n =
+  List.fold_left (fun acc item ->
+      match String.split_on_char '^' item with
+      | [v] -> N.add acc (n_of_string v)
+      | [v; k] -> N.add acc (N.mul (n_of_string v) (n_of_string k))
+      | _ -> failwith "exp item") N0 (String.split_on_char ',' s)
+
+(* the stored counts of every kind with an input counter are the samples' own per-iteration values *)
+let stored_ok (inner : string) (exp : string) : bool =
+  let inp = parse_case inner in
+  let es = String.split_on_char '|' exp in
+  List.length es = List.length inp.in_counters
+  && List.for_all2 (fun e ci ->
+      if e = "*" then true
+      else
+        let sums = if e = "-" then [] else List.map sample_sum (String.split_on_char ';' e) in
+        List.length sums = List.length inp.in_durs && stored_counts_sb inp.in_size sums ci)
+    es inp.in_counters
 
 let run_mode dbg line =
   let (_, i) = split_sb line in
   match split_in_out i with
-  | Some (inner, out) -> "IN " ^ inner ^ " OUT " ^ stats_mode dbg (inner ^ "\t" ^ out)
+  | Some (inner, exp, out) -> "IN " ^ inner ^ " EXP " ^ exp ^ " OUT " ^ stats_mode dbg (inner ^ "\t" ^ out)
   | None -> "no-recording"
 
 let run_check line =
   let (_, i) = split_sb line in
   match split_in_out i with
-  | Some (inner, out) -> stats_check (inner ^ "\t" ^ out)
+  | Some (inner, exp, out) ->
+    if not (stored_ok inner exp) then verdict false "stored-counts-not-one-per-sample-with-the-samples-own-value"
+    else stats_check (inner ^ "\t" ^ out)
   | None -> verdict false ("outcome:" ^ i)
 
 (* ---- per-input counter value ---- *)
